@@ -65,7 +65,7 @@ pub fn dddmp_import(data: &[u8]) -> Result<(), String> {
     let sel = data[0];
     let file = &data[1..];
     // open known finding header-sized-allocation: counts >= 2^27 declared in the header
-    if known("C15", "header-sized-allocation") && crate::c18::huge_count_at(&file[..file.len().min(400)], 1 << 22) {
+    if known("C15", "header-sized-allocation") && crate::c18::huge_count_at(file, 1 << 22) {
         return Ok(());
     }
     let n = 2 + (sel >> 2) as u32 % 5;
